@@ -291,6 +291,27 @@ Theorem getenv_histories_are_optional_histories : forall (atoi atof : N -> N) z 
 Proof. exact ProofsEnv.getenv_histories_safe. Qed.
 Print Assumptions getenv_histories_are_optional_histories.
 
+(* ---- 15. payload kinds along the trait lattice.  The machine has ONE path for every payload type:
+        a value enters a wrapper only through the payload's own copy/move constructor or assignment
+        (never bytewise) - each transfer from an engaged source reads (or moves from) the source
+        payload and constructs / assigns the target payload; these events are observable for every
+        kind with user-provided copy operations (with or without a destructor).  Together with
+        optional_copies_independent (which does not mention the kind at all) copies are independent
+        for every payload kind. *)
+Theorem optional_transfer_is_payload_copy : forall z s a o i j tj v x s' e,
+  sim s a -> transfer_of o = Some (i, j) -> a j = Some (tj, Some v) ->
+  step (fixed_cfg z) s o = SOk x s' e ->
+  existsb (is_src_read j) e = true /\ existsb (is_dst_write i) e = true.
+Proof. exact Proofs2.transfer_is_payload_copy. Qed.
+Print Assumptions optional_transfer_is_payload_copy.
+
+Theorem optional_transfer_observable_for_user_copy_kinds : forall pk e j i,
+  ((pk = PkFull) \/ (pk = PkNoDtor)) ->
+  existsb (is_src_read j) e = true /\ existsb (is_dst_write i) e = true ->
+  existsb (is_src_read j) (observed pk e) = true /\ existsb (is_dst_write i) (observed pk e) = true.
+Proof. exact Proofs2.transfer_visible. Qed.
+Print Assumptions optional_transfer_observable_for_user_copy_kinds.
+
 (* ---- non-vacuity: concrete histories exercising the hypotheses / the interesting paths *)
 Example ex_assign_from_empty :
   r_outs (run (fixed_cfg true) [CtorValue 0 false 5; CtorDefault 1 false; AssignCopy 0 1; HasValue 0; Value 0]) =
@@ -363,3 +384,11 @@ Example ex_getenv_empty_string_engaged :
   [Some OUnit; Some OUnit; Some OUnit; Some OUnit;
    Some (OVal (Some 0)); Some (OVal (Some 0)); Some (OVal (Some 0)); Some (OBool false)].
 Proof. exact ProofsEnv.getenv_empty_string_engaged. Qed.
+
+Example ex_observed_kinds :
+  let e := r_log (run_closed (fixed_cfg true) [CtorValue 0 false 4; CtorCopy 1 0; CtorDefault 2 false; AssignCopy 2 0; Reset 1]) in
+  e = [(KCtor, 0); (KDefault, 1); (KRead, 0); (KAssign, 1); (KDefault, 2); (KRead, 0); (KAssign, 2); (KDtor, 1); (KDtor, 0); (KDtor, 2)] /\
+  observed PkNoDtor e = [(KCtor, 0); (KDefault, 1); (KRead, 0); (KAssign, 1); (KDefault, 2); (KRead, 0); (KAssign, 2)] /\
+  observed PkDtorOnly e = [(KDefault, 1); (KDefault, 2); (KDtor, 1); (KDtor, 0); (KDtor, 2)] /\
+  observed PkTrivial e = [].
+Proof. vm_compute. repeat split; reflexivity. Qed.
